@@ -15,7 +15,16 @@
 (*      (3) a counter handed to a caller by SealEnvelope is never handed   *)
 (*          out again (before / after the restart alike);                  *)
 (*      (4) member / device / group / account keys read through the API    *)
-(*          are the ones read before.                                      *)
+(*          are the ones read before;                                      *)
+(*      (5) "usable": the first RegisterChainKey call of a sender device   *)
+(*          that RETURNS ok at a store (in particular the redelivery of a  *)
+(*          registration the stop interrupted) makes that device's window  *)
+(*          openable: at the end of the continued workload every sealed    *)
+(*          message of the device with a counter in                        *)
+(*          (registered counter, registered counter + W] opens.  Judged    *)
+(*          only when no registration of ANOTHER announcement of the       *)
+(*          device had any effect at that store before (then the window    *)
+(*          is that one's).                                                *)
 (* C09      counters handed out by a device are pairwise distinct, a call  *)
 (*          that begins after another returned gets a larger counter,      *)
 (*          without a stop they form an interval at the end; every         *)
@@ -37,8 +46,11 @@ VARIABLES l, mode, stopped,
           floor,     \* [Thr -> Int] largest counter handed out when the thread's current call began
           mustOpen,  \* SUBSET (Dev \X Dev \X Int): <<store, device, counter>> that must open from now on
           lastCk,    \* [Dev -> [Dev -> Int]] last chain-key counter recorded as stored
-          keys       \* [Dev -> record] keys observed through the API (0 = not yet)
-mvars == <<l, mode, stopped, handed, top, low, floor, mustOpen, lastCk, keys>>
+          keys,      \* [Dev -> record] keys observed through the API (0 = not yet)
+          win,       \* the workload's precomputed-key window W (0: not given, clause 5 vacuous)
+          regd,      \* set of <<store, device, counter>>: first registration of the device that returned ok at the store
+          regx       \* set of <<store, device, counter>>: registrations that had an effect (a mutation, or returned ok)
+mvars == <<l, mode, stopped, handed, top, low, floor, mustOpen, lastCk, keys, win, regd, regx>>
 
 Ev == TraceLog[l]
 Consume(e) == l <= Len(TraceLog) /\ Ev.ev = e /\ l' = l + 1
@@ -70,60 +82,70 @@ MReset == /\ Consume("reset")
           /\ top' = [d \in Dev |-> -1] /\ low' = [d \in Dev |-> -1]
           /\ lastCk' = [s \in Dev |-> [d \in Dev |-> -1]]
           /\ keys' = [s \in Dev |-> NoKeys]
+          /\ win' = (IF "W" \in DOMAIN Ev THEN Ev.W ELSE 0) /\ regd' = {} /\ regx' = {}
 
 CallCommon == /\ CkMono(Ev.s, Ev.muts)
               /\ lastCk' = [lastCk EXCEPT ![Ev.s] = CkAfter(Ev.s, Ev.muts)]
 
 MJoin == /\ Consume("join") /\ CallCommon
-         /\ UNCHANGED <<mode, stopped, handed, top, low, floor, mustOpen, keys>>
+         /\ UNCHANGED <<mode, stopped, handed, top, low, floor, mustOpen, keys, win, regd, regx>>
+Flag(f) == f \in DOMAIN Ev /\ Ev[f]
 MRegister == /\ Consume("register") /\ CallCommon
-             /\ UNCHANGED <<mode, stopped, handed, top, low, floor, mustOpen, keys>>
+             /\ regd' = IF /\ Flag("ok") /\ ~Flag("crashed") /\ Ev.s # Ev.d
+                           /\ \A r \in regd : ~(r[1] = Ev.s /\ r[2] = Ev.d)
+                           /\ \A r \in regx : (r[1] = Ev.s /\ r[2] = Ev.d) => r[3] = Ev.x
+                           THEN regd \cup {<<Ev.s, Ev.d, Ev.x>>} ELSE regd
+             /\ regx' = IF Len(Ev.muts) > 0 \/ (Flag("ok") /\ ~Flag("crashed")) THEN regx \cup {<<Ev.s, Ev.d, Ev.x>>} ELSE regx
+             /\ UNCHANGED <<mode, stopped, handed, top, low, floor, mustOpen, keys, win>>
 MSeal == /\ Consume("seal") /\ CallCommon
          /\ Ev.ok => /\ Ev.k \notin handed[Ev.d]
                      /\ (~stopped => Ev.k > Top(Ev.d))
          /\ IF Ev.ok THEN Hand(Ev.d, Ev.k) ELSE UNCHANGED <<handed, top, low>>
-         /\ UNCHANGED <<mode, stopped, floor, mustOpen, keys>>
+         /\ UNCHANGED <<mode, stopped, floor, mustOpen, keys, win, regd, regx>>
 MOpen == /\ Consume("open") /\ CallCommon
          /\ (<<Ev.s, Ev.d, Ev.x>> \in mustOpen /\ ~Ev.crashed) => Ev.ok
          /\ (mode = "c09" /\ Ev.x \in handed[Ev.d]) => Ev.ok
          /\ Ev.ok => Faithful
          /\ mustOpen' = IF Ev.ok THEN mustOpen \cup {<<Ev.s, Ev.d, Ev.x>>} ELSE mustOpen
-         /\ UNCHANGED <<mode, stopped, handed, top, low, floor, keys>>
+         /\ UNCHANGED <<mode, stopped, handed, top, low, floor, keys, win, regd, regx>>
 
 MCrash == /\ Consume("crash") /\ stopped' = TRUE
-          /\ UNCHANGED <<mode, handed, top, low, floor, mustOpen, lastCk, keys>>
+          /\ UNCHANGED <<mode, handed, top, low, floor, mustOpen, lastCk, keys, win, regd, regx>>
 MRestart == /\ Consume("restart")
-            /\ UNCHANGED <<mode, stopped, handed, top, low, floor, mustOpen, lastCk, keys>>
+            /\ UNCHANGED <<mode, stopped, handed, top, low, floor, mustOpen, lastCk, keys, win, regd, regx>>
 MProbes == /\ Consume("probes")
            /\ IF Ev.phase = "pre"
                 THEN mustOpen' = mustOpen \cup {<<Ev.s, p[1], p[2]>> : p \in SetOf(Ev.open)}
                 ELSE /\ \A m \in mustOpen : m[1] = Ev.s => <<m[2], m[3]>> \in SetOf(Ev.open)
+                     /\ Ev.phase = "final" =>
+                          \A r \in regd : r[1] = Ev.s =>
+                             \A p \in SetOf(Ev.all) : (p[1] = r[2] /\ p[2] > r[3] /\ p[2] <= r[3] + win) => p \in SetOf(Ev.open)
                      /\ UNCHANGED mustOpen
-           /\ UNCHANGED <<mode, stopped, handed, top, low, floor, lastCk, keys>>
+           /\ UNCHANGED <<mode, stopped, handed, top, low, floor, lastCk, keys, win, regd, regx>>
 MKeys == /\ Consume("keys")
          /\ \A f \in Fields : keys[Ev.s][f] # 0 => Ev[f] = keys[Ev.s][f]
          /\ keys' = [keys EXCEPT ![Ev.s] = [f \in Fields |-> IF @[f] # 0 THEN @[f] ELSE Ev[f]]]
-         /\ UNCHANGED <<mode, stopped, handed, top, low, floor, mustOpen, lastCk>>
+         /\ UNCHANGED <<mode, stopped, handed, top, low, floor, mustOpen, lastCk, win, regd, regx>>
 
 \* ---- C09: calls of concurrent threads, datastore operations in the order of the wrapper's sequence number
 MTBegin == /\ Consume("tbegin") /\ floor' = [floor EXCEPT ![Ev.t] = Top(Ev.d)]
-           /\ UNCHANGED <<mode, stopped, handed, top, low, mustOpen, lastCk, keys>>
+           /\ UNCHANGED <<mode, stopped, handed, top, low, mustOpen, lastCk, keys, win, regd, regx>>
 MGet == /\ Consume("get")
-        /\ UNCHANGED <<mode, stopped, handed, top, low, floor, mustOpen, lastCk, keys>>
+        /\ UNCHANGED <<mode, stopped, handed, top, low, floor, mustOpen, lastCk, keys, win, regd, regx>>
 MPut == /\ Consume("put")
         /\ IsCk(Ev) => Ev.c >= lastCk[Ev.s][Ev.d]
         /\ lastCk' = IF IsCk(Ev) THEN [lastCk EXCEPT ![Ev.s][Ev.d] = Ev.c] ELSE lastCk
-        /\ UNCHANGED <<mode, stopped, handed, top, low, floor, mustOpen, keys>>
+        /\ UNCHANGED <<mode, stopped, handed, top, low, floor, mustOpen, keys, win, regd, regx>>
 MTRet == /\ Consume("tret")
          /\ Ev.ok   \* nothing stops a store in these runs: a failed SealEnvelope is not a behaviour of the property's domain
          /\ Ev.k \notin handed[Ev.d] /\ Ev.k > floor[Ev.t]
          /\ Hand(Ev.d, Ev.k)
-         /\ UNCHANGED <<mode, stopped, floor, mustOpen, lastCk, keys>>
+         /\ UNCHANGED <<mode, stopped, floor, mustOpen, lastCk, keys, win, regd, regx>>
 
 MEnd == /\ Consume("end")
         /\ ~stopped => \A d \in Dev : Cardinality(handed[d]) = (IF handed[d] = {} THEN 0 ELSE top[d] - low[d] + 1)
         /\ mode = "c09" => \A d \in Dev : \A k \in handed[d] : <<"R", d, k>> \in mustOpen
-        /\ UNCHANGED <<mode, stopped, handed, top, low, floor, mustOpen, lastCk, keys>>
+        /\ UNCHANGED <<mode, stopped, handed, top, low, floor, mustOpen, lastCk, keys, win, regd, regx>>
 
 MNext == MReset \/ MJoin \/ MRegister \/ MSeal \/ MOpen \/ MCrash \/ MRestart \/ MProbes \/ MKeys
          \/ MTBegin \/ MGet \/ MPut \/ MTRet \/ MEnd
@@ -131,7 +153,7 @@ MInit == /\ l = 1 /\ mode = "" /\ stopped = FALSE
          /\ handed = [d \in Dev |-> {}] /\ floor = [t \in Thr |-> -1] /\ mustOpen = {}
          /\ top = [d \in Dev |-> -1] /\ low = [d \in Dev |-> -1]
          /\ lastCk = [s \in Dev |-> [d \in Dev |-> -1]]
-         /\ keys = [s \in Dev |-> NoKeys] /\ TLCSet(42, 1)
+         /\ keys = [s \in Dev |-> NoKeys] /\ win = 0 /\ regd = {} /\ regx = {} /\ TLCSet(42, 1)
 MSpec == MInit /\ [][MNext]_mvars
 
 Mark == TLCSet(42, IF l > TLCGet(42) THEN l ELSE TLCGet(42))
